@@ -477,4 +477,19 @@ theorem noAuth_moves {cfg : Cfg} {K : Kind → Bool} (hK : K .authPerm = false) 
     · exact ih h
     · rw [hK] at h2; cases h2
 
+/-! ### with the stub driver `afterConnect` is never taken back -/
+
+theorem afterConnect_move {cfg : Cfg} {K : Kind → Bool} (hd : cfg.realDriver = false) {a b : Abs}
+    (m : Move cfg K a b) (h : a.afterConnect = true) : b.afterConnect = true := by
+  cases m
+  case reset hr => rw [hd] at hr; cases hr
+  case setAfterConnect _ _ => rfl
+  all_goals exact h
+
+theorem afterConnect_moves {cfg : Cfg} {K : Kind → Bool} (hd : cfg.realDriver = false) {a b : Abs}
+    (m : Moves cfg K a b) (h : a.afterConnect = true) : b.afterConnect = true := by
+  induction m with
+  | refl => exact h
+  | step _ m ih => exact afterConnect_move hd m ih
+
 end C08
